@@ -513,7 +513,7 @@ func (w *World) unbox(x *Term, t types.Type) *Term {
 
 func (e *Env) trSelector(n *ast.SelectorExpr) TV {
 	// ghost variables: $fsw.n, $out.data, ...
-	if id, ok := n.X.(*ast.Ident); ok && strings.HasPrefix(id.Name, "ghost_") {
+	if id, ok := n.X.(*ast.Ident); ok && strings.HasPrefix(id.Name, "ghost_") && ghostSorts["$"+strings.TrimPrefix(id.Name, "ghost_")+"."+n.Sel.Name] != "" {
 		name := "$" + strings.TrimPrefix(id.Name, "ghost_") + "." + n.Sel.Name
 		if so, ok := ghostSorts[name]; ok {
 			ty := types.Type(tyInt)
@@ -826,7 +826,14 @@ func (e *Env) trCall(n *ast.CallExpr) TV {
 							})
 						}
 					}
-					if !nested {
+					bad := false
+					x.walk(func(y *Term) {
+						switch y.Op {
+						case "and", "or", "not", "ite", "=>", "=", "forall", "exists", "<", "<=":
+							bad = true
+						}
+					})
+					if !nested && !bad {
 						pats[x.String()] = x
 					}
 				}
@@ -875,6 +882,24 @@ func (e *Env) trCall(n *ast.CallExpr) TV {
 		return TV{e.w.box(v.T, v.Ty), tyAny}
 	case "itoa":
 		return TV{A(e.w.ufunc("itoa", []string{"Int"}, "String"), arg(0).T), tyString}
+	case "kept":
+		// kept(pred, T): every object of type T that satisfied pred at function entry still does
+		pid, ok := n.Args[0].(*ast.Ident)
+		if sel, isSel := n.Args[0].(*ast.SelectorExpr); isSel {
+			pid, ok = sel.Sel, true
+		}
+		if !ok || e.old == nil {
+			e.fail("kept(pred, T) expected, in a context with an old state")
+		}
+		sf := e.w.P.Specs[pid.Name]
+		if sf == nil || len(sf.Params) != 1 {
+			e.fail("kept: %s is not a one-parameter spec predicate", pid.Name)
+		}
+		pt := e.typeArg(n.Args[1])
+		q := Leaf("q_kept_" + strconv.Itoa(e.w.fresh()))
+		now := e.applySpec(sf, []TV{{q, pt}}).T
+		before := e.withState(e.old).applySpec(sf, []TV{{q, pt}}).T
+		return TV{A("forall", A("(("+q.Op+" Int))"), Implies(And(Le(IntLit(1), q), Lt(q, e.heap(e.old, "$cnt", "Int")), before), now)), tyBool}
 	case "disjoint":
 		a, b := arg(0).T, arg(1).T
 		return TV{Or(Eq(A("s_base", a), IntLit(0)), Eq(A("s_base", b), IntLit(0)), Not(Eq(A("s_base", a), A("s_base", b)))), tyBool}
